@@ -26,6 +26,7 @@ import SwcVerif.Model.AlgoRunNormalizer
 import SwcVerif.Model.AlgoRunBranches
 import SwcVerif.Model.AlgoRunRedirect
 import SwcVerif.Model.AlgoRunViews
+import SwcVerif.Model.AlgoRunCat
 import SwcVerif.Model.AlgoRunAssemble
 import SwcVerif.Model.AlgoRunLMeasure
 import SwcVerif.Model.AlgoRunNodeBranch
@@ -84,6 +85,7 @@ def dispatch (op : String) (args : List String) : String :=
   | "gredirect" => AlgoRun.handleRedirect args
   | "gviews" => AlgoRun.handleViews args
   | "gslice" => AlgoRun.handleSlice args
+  | "gcat" => AlgoRun.handleCat args
   | "glm" => AlgoRun.handleLm args
   | "gtips" | "gnodebranch" | "gnode" => AlgoRun.handleNodeBranch op args
   | "gmst" => AlgoRun.handleMst args
